@@ -474,6 +474,17 @@ func CheckC03(fs *FilterSession, st *StepObs, final bool) []Finding {
 	if len(pf) > len(post) {
 		out = append(out, Finding{"c03/filter-ahead-of-blocks/" + kc, fmt.Sprintf("filter tip %d above block tip %d", len(pf)-1, len(post)-1)})
 	}
+	// No entry above the tip: the by-height lookup of the height after the
+	// filter tip finds nothing (an entry there belongs to no block of the
+	// current chain: it survived the disconnection of its block).
+	if len(pf) > 0 {
+		_, t0, e0 := fs.Stores.Filter.ChainTip()
+		_, e := fs.Stores.Filter.FetchHeaderByHeight(uint32(len(pf)))
+		_, t1, e1 := fs.Stores.Filter.ChainTip()
+		if e == nil && e0 == nil && e1 == nil && t0 == t1 && int(t0) == len(pf)-1 {
+			out = append(out, Finding{"c03/filter-entry-above-tip/" + kc, fmt.Sprintf("the filter header store answers FetchHeaderByHeight(%d) although its tip is %d", len(pf), len(pf)-1)})
+		}
+	}
 	// Which heights changed?
 	from := 1
 	if !final {
@@ -624,6 +635,9 @@ func (fs *FilterSession) checkBans(pf []chainhash.Hash, post []wire.BlockHeader)
 		banned[b.Addr] = b.Reason
 	}
 	for _, p := range fs.Peers {
+		if p.superseded {
+			continue
+		}
 		b := fs.Behav[p.Addr]
 		if b.Honest() {
 			if r, ok := banned[p.Addr]; ok {
